@@ -64,7 +64,7 @@ def register(fixed, known):
     kf7 = "the repairs change the canonical output strings that the 16 pinned simplifier tests pin down, and need a redesign of the symbol naming / power printing"
     NS = "models.numeric_symbolic_operations"
     known("C13", "C13.vocab", NS, "SYMPY_OP_TO_PDDL_OP", "table-value:Pow", "powers other than -1 and >1 are printed with '^': 1/(x*x) -> (^ (fuel ?x) -2)", kf7, "fixes/demos.py K7")
-    known("C13", "C13.mangle", NS, "transform_expression", "symbol-name:deletes-separators",
+    known("C13", "C13.mangle", NS, "transform_expression", "symbol-name:deletes:-/<whitespace>",
           "(dist a bc) and (dist ab c) become one sympy symbol: their difference simplifies to 0", kf7, "fixes/demos.py K7")
     known("C13", "C13.atoms", NS, "extract_atom", "atom-class:Rational", "x/3 raises KeyError (Rational is not handled)", kf7, "fixes/demos.py K7")
     known("C13", "C13.atoms", NS, "extract_atom", "atom-class:Half", "x/2 raises KeyError (Half is not handled)", kf7, "fixes/demos.py K7")
